@@ -17,6 +17,7 @@ import os
 import random as _random
 
 from . import common, gen, tlc, cliargs
+from .exc import exc_name
 
 
 class Recorder:
@@ -300,7 +301,7 @@ def container_traces(ck):
             except ValueError:
                 outcome = "ValueError"
             except Exception as x:          # judged: not an outcome of the specification
-                outcome = type(x).__name__
+                outcome = exc_name(x)
             observe(e, outcome)
         ev.append({"op": "final", "iter": [list(c) for c in F], "items": [list(F[i]) for i in range(len(F))],
                    "view": [list(c) for c in F.clauses()]})
@@ -414,7 +415,7 @@ def main(argv=None):
                 if cname == "CNF" and F.number_of_variables() <= 400 and len(F) <= 3000:
                     bases.append((rid, fam, par, graph, graph2, F))
             except Exception as e:
-                emit("%s-%s" % (rid, cname), fam, par, graph, graph2, [], None, type(e).__name__)
+                emit("%s-%s" % (rid, cname), fam, par, graph, graph2, [], None, exc_name(e))
     # formulas whose last variables occur in no clause
     for t, (k, n, m) in enumerate(((3, 30, 5), (2, 25, 4), (3, 40, 8))):
         Fu = cnfgen.RandomKCNF(k, n, m, seed=ck.seed + t)
@@ -433,7 +434,7 @@ def main(argv=None):
                 T1 = app(F)
                 emit("%s-T-%s" % (rid, kind), fam, par, graph, graph2, [{"kind": kind, "k": k, "C": C}], T1, "ok")
             except Exception as e:
-                emit("%s-T-%s" % (rid, kind), fam, par, graph, graph2, [{"kind": kind, "k": k, "C": C}], None, type(e).__name__)
+                emit("%s-T-%s" % (rid, kind), fam, par, graph, graph2, [{"kind": kind, "k": k, "C": C}], None, exc_name(e))
                 continue
             if T1.number_of_variables() <= 130 and len(T1) <= 300 and max([len(c) for c in T1.clauses()] or [0]) <= 4:
                 kind2, k2, C2 = ck.rng.choice(CHAIN_KINDS)
@@ -443,7 +444,7 @@ def main(argv=None):
                          [{"kind": kind, "k": k, "C": C}, {"kind": kind2, "k": k2, "C": C2}], T2, "ok")
                 except Exception as e:
                     emit("%s-T-%s-%s" % (rid, kind, kind2), fam, par, graph, graph2,
-                         [{"kind": kind, "k": k, "C": C}, {"kind": kind2, "k": k2, "C": C2}], None, type(e).__name__)
+                         [{"kind": kind, "k": k, "C": C}, {"kind": kind2, "k": k2, "C": C2}], None, exc_name(e))
     # command line tools
     cli = [(["php", "9", "7"], "php", {"m": 9, "n": 7, "fun": False, "onto": False}, []),
            (["php", "6", "5", "--functional", "-T", "xor", "2"], "php", {"m": 6, "n": 5, "fun": True, "onto": False},
@@ -466,7 +467,7 @@ def main(argv=None):
                 F = cliargs.call_cli(tool, [tool, "-q", "--seed", "11"] + args)
                 emit("cli-%s-%d" % (tool, j), fam, par, None, None, chain, F, "ok")
             except BaseException as e:
-                emit("cli-%s-%d" % (tool, j), fam, par, None, None, chain, None, type(e).__name__)
+                emit("cli-%s-%d" % (tool, j), fam, par, None, None, chain, None, exc_name(e))
     # random k-CNF / k-XOR, including requests that exhaust the rejection sampler (dense fallback)
     from math import comb
     rnd = []
@@ -493,7 +494,7 @@ def main(argv=None):
             except ValueError:
                 pass        # a refusal (m beyond the admissible clauses) builds no formula: C13's business
             except Exception as e:
-                emit("rand-%s-%d-%d-%d-%d-%s" % (fn, k, n, m, j, cname), "none", {"n0": n}, None, None, [], None, type(e).__name__)
+                emit("rand-%s-%d-%d-%d-%d-%s" % (fn, k, n, m, j, cname), "none", {"n0": n}, None, None, [], None, exc_name(e))
     ck.count("random_formula_objects", len(rnd) * 2)
     # histories of the store machine itself (direction A): every behaviour of Store.tla of a given
     # depth is replayed into a real CNF and a real OPB; the recorded event log is judged like the others
@@ -519,7 +520,7 @@ def main(argv=None):
                     else:
                         F.update_variable_number(c["k"])
             except Exception as e:
-                outcome = type(e).__name__
+                outcome = exc_name(e)
             emit("hist-%05d-%s" % (j, cname), "none", {"n0": h[-1]["nv"]}, None, None, [], F, outcome)
     ck.count("store_histories_replayed", len(hists) * 2)
     ck.count("formula_objects_traced", len(records))
